@@ -57,6 +57,8 @@ func (m *Manager) Close() {
 	for _, ch := range m.subscribers {
 		close(ch)
 	}
+	// クローズ済みのチャンネルへ配信しないよう、購読者一覧を空にします。
+	m.subscribers = nil
 }
 
 func (m *Manager) GetCurrentNIC() string {
@@ -118,17 +120,17 @@ func (m *Manager) start() error {
 			return nil
 		case nic := <-m.nicChangeEventCh:
 			m.currentNICName.Store(nic)
+			// 配信はブロックしないため、ロックを保持したまま行います。
+			// （ロックの外で配信すると、unsubscribeによる一覧の書き換えやCloseによるチャンネルのクローズと競合します）
 			m.subscribersMu.Lock()
-			subs := m.subscribers
-			m.subscribersMu.Unlock()
-			for _, ch := range subs {
+			for _, ch := range m.subscribers {
 				select {
-				case <-m.ctx.Done():
 				case ch <- nic:
 				default:
 					slog.WarnContext(m.ctx, "Failed to send NIC change event", "nic", nic)
 				}
 			}
+			m.subscribersMu.Unlock()
 		}
 	}
 }
